@@ -139,7 +139,7 @@ func (s *seqCtx) verify(it item) {
 	// Normalise: "signed integer in the symmetric range (-N/2, N/2]", congruent to m.
 	nz := d.Normalise().Big()
 	if !ref.inSym(nz) || ref.modN(nz).Cmp(it.m) != 0 {
-		t.Fatalf("%s: Normalise of plaintext %s gives %s (want %s)", s.where(), short(it.m), nz, ref.sym(it.m))
+		t.Fatalf("%s: Normalise of plaintext %s gives %s (want %s)", s.where(), short(it.m), short(nz), short(ref.sym(it.m)))
 	}
 	om, on, err := sk.Open(it.c)
 	if err != nil {
@@ -261,7 +261,7 @@ func TestPaillierSequence(t *testing.T) {
 				next.m = ref.modN(new(big.Int).Mul(cur.m, k))
 				next.r = ref.powN(cur.r, k)
 				op = "scalar:" + scl
-				s.log = append(s.log, fmt.Sprintf("scalar(%s)", k.String()))
+				s.log = append(s.log, fmt.Sprintf("scalar(%s)", short(k)))
 			case "shift":
 				dcl, d := drawPlain(t, lbl+"d", ref)
 				dp, _ := mkPlain(t, lbl+"d", key, d)
@@ -476,7 +476,7 @@ func TestPaillierRejects(t *testing.T) {
 				v = new(big.Int).Neg(new(big.Int).Add(new(big.Int).Add(ref.Half, one), drawBig(t, "v", ref.N.BitLen()+8)))
 			}
 			_, err := paillier.NewPlaintextSymmetric(zint(t, v), key.N)
-			mustErr(t, err, "key %v: NewPlaintextSymmetric(%s) with N = %s", id, v, short(ref.N))
+			mustErr(t, err, "key %v: NewPlaintextSymmetric(%s) with N = %s", id, short(v), short(ref.N))
 		case "nonce-nonunit", "ct-nonunit":
 			sub = rapid.SampledFrom([]string{"p", "q", "kp", "kq", "N", "kN"}).Draw(t, "sub")
 			mod := ref.N
@@ -577,7 +577,7 @@ func TestPaillierRejects(t *testing.T) {
 			case "scalar-foreign":
 				for _, kn := range keyNames {
 					_, err := keys[kn].CiphertextScalarOp(fc, k)
-					mustErr(t, err, "%s: %s.CiphertextScalarOp(foreign, %s)", ctx, kn, kv)
+					mustErr(t, err, "%s: %s.CiphertextScalarOp(foreign, %s)", ctx, kn, short(kv))
 				}
 			case "rerand-foreign-ct":
 				for _, kn := range keyNames {
@@ -697,7 +697,7 @@ func TestPaillierPlaintextBoundaries(t *testing.T) {
 					{"N-2", add(ref.N, -2)}, {"N-1", add(ref.N, -1)}, {"N", ref.N}, {"N+1", add(ref.N, 1)}, {"2N", new(big.Int).Lsh(ref.N, 1)},
 				}
 				check := func(ctor string, c cand, pt *paillier.Plaintext, err error, wantOK bool) {
-					where := fmt.Sprintf("%s/%d N=%s: %s(%s = %s)", kind, 2*bits, short(ref.N), ctor, c.name, c.v)
+					where := fmt.Sprintf("%s/%d N=%s (p=%s q=%s): %s(%s = %s)", kind, 2*bits, short(ref.N), short(ref.P), short(ref.Q), ctor, c.name, short(c.v))
 					if wantOK != (err == nil) {
 						t.Fatalf("%s: accepted = %v, want %v (err %v)", where, err == nil, wantOK, err)
 					}
@@ -713,7 +713,7 @@ func TestPaillierPlaintextBoundaries(t *testing.T) {
 					}
 					nz := pt.Normalise().Big()
 					if nz.Cmp(ref.sym(want)) != 0 {
-						t.Fatalf("%s: Normalise = %s, want %s", where, nz, ref.sym(want))
+						t.Fatalf("%s: Normalise = %s, want %s", where, short(nz), short(ref.sym(want)))
 					}
 					back, err := paillier.NewPlaintextSymmetric(zint(t, nz), N)
 					if err != nil || !back.Equal(pt) {
